@@ -8,6 +8,8 @@
 //  3. os.<FileOp>(...)           -> vos.<FileOp>(...)
 //  4. http.Transport{...}        -> + DialContext: memnet.DialContext
 //  5. range over ordered-key map -> range vsched.Sorted(m)   (type-aware)
+//  5b. range over a map with unsortable keys -> range vsched.Permuted(m): ordered by a harness-supplied key name
+//      (request id) and rotated by a choice point
 //
 // Exit status: 0 ok, 2 infrastructure error (never 1).
 package main
@@ -266,6 +268,11 @@ func rewriteFile(fset *token.FileSet, f *ast.File, src []byte, name string, plai
 			if mapSet[x.X] {
 				needSched = true
 				edits = append(edits, edit{off(x.X.Pos()), off(x.X.Pos()), "vsched.Sorted("})
+				edits = append(edits, edit{off(x.X.End()), off(x.X.End()), ")"})
+			} else if unorderedMapRanges[name][off(x.X.Pos())] {
+				// rewrite 5b: maps with unsortable keys: order owned by the search (vsched.Permuted)
+				needSched = true
+				edits = append(edits, edit{off(x.X.Pos()), off(x.X.Pos()), "vsched.Permuted("})
 				edits = append(edits, edit{off(x.X.End()), off(x.X.End()), ")"})
 			}
 		}
